@@ -57,13 +57,13 @@ def joined_value(ss: List[Store]) -> AV:
 
 def monos(shape) -> Optional[Set[Tuple[int, FrozenSet[str], Tuple]]]:
     """(sign, facs, exps) triples, None for TOP."""
-    if shape is sh.TOP:
+    if shape is sh.TOP or sh.is_bad(shape):
         return None
     return {(m.sign, m.facs, m.exps, m.dec) for m in shape}
 
 
 def sigs(shape, drop_prefixes=("lookup.", "param.")) -> Optional[Set[Tuple[int, FrozenSet[str]]]]:
-    if shape is sh.TOP:
+    if shape is sh.TOP or sh.is_bad(shape):
         return None
     out = set()
     for m in shape:
@@ -75,3 +75,7 @@ def sigs(shape, drop_prefixes=("lookup.", "param.")) -> Optional[Set[Tuple[int, 
 def fmt_sig(sig) -> str:
     s, f = sig[0], sig[1]
     return {1: "+", -1: "-", 0: "?"}[s] + "*".join(sorted(f))
+
+
+def undecided(shape) -> bool:
+    return shape is sh.TOP or sh.is_bad(shape)
